@@ -39,4 +39,7 @@ theorem holds_stderr_taken_all (sinkFails : Nat → Bool) (lines : Nat) :
     LogLine.stderrTaken Facts.stderrReader sinkFails lines 0 = lines :=
   stderr_taken_all _ reader_good sinkFails lines 0
 
+theorem holds_stderr_taken_before_handshake (lines : Nat) : LogLine.stderrTakenDuringStart Facts.stderrReader lines = lines :=
+  stderr_taken_before_handshake _ reader_good lines
+
 end GoPlugin.Instance.C10
